@@ -35,7 +35,7 @@ def parseL4Case (j : Json) : Rt.Case :=
     finishers := strList j "finishers", concurrent := gn j "concurrent", op := gs j "op",
     dests := gs j "dests", calls := strList j "calls", cancelAt := optInt j "cancelAt",
     preCtx := gs j "preCtx", extraSets := gn j "extraSets", fewCols := gb j "fewCols",
-    pairOp := gs j "pairOp", aEnd := gs j "aEnd", otherShape := gb j "otherShape" }
+    pairOp := gs j "pairOp", aEnd := gs j "aEnd", otherShape := gb j "otherShape", beginCancel := gb j "beginCancel" }
 
 def parseL4Obs (j : Json) : Rt.Obs :=
   { returns := strList j "returns", events := strList j "events", eventCtx := strList j "eventCtx",
@@ -142,10 +142,10 @@ def handleL5 (j : Json) : Except String Json := do
      ("agree", Json.bool (!dsegs && !dpairs)),
      ("affects", Json.arr (aff.map Json.str).toArray),
      ("diff", Json.str (if dsegs then "driver log segments differ" else if dpairs then "cache content differs" else "")),
-     ("c09", Json.bool (holdsC09 execs)),
+     ("c09", Json.bool (holdsC09 execs && holdsC09reuse (prepCounts h {} 1) (natList oj "prepPerOp"))),
      ("c10", Json.bool (holdsC10 execs (gn oj "closedErrs") && closedUse == 0)),
      -- C11 also says an evicted statement is closed only once its last user has finished
-     ("c11", Json.bool (execs.all (fun e => !e.closedBefore) &&
+     ("c11", Json.bool (!(gb oj "leftOpen") && execs.all (fun e => !e.closedBefore) &&
         (if gb oj "noStats" then doubleClose == 0 && (!(gb oj "allDropped") || openStmts == 0)
          else holdsC11 doubleClose openStmts opairs.length 1 (gb oj "allDropped") opairs.length)))])
 
